@@ -48,6 +48,10 @@ CHECKS = {
     "C14": C("c14", dict(checks=250, shards=4, timeout=600), dict(checks=5000, shards=16, timeout=6000),
              "property-based testing (rapid): generated edit histories with snapshots; invariant over the history: every snapshot's canonical observation stays equal to the one recorded when it was taken, and the live world reflects each edit",
              "Trusted: Observe (the snapshot of all read queries). Moves that the world rejects (they would invalidate a closed path) are skipped."),
+    "C15": C("c15", dict(checks=500, shards=4, timeout=600), dict(checks=8000, shards=16, timeout=6000),
+             "property-based testing (rapid): generated reference graphs and edit histories; oracle: reverse reachability over the model's current features with a visited set; termination by watchdog and crash capture",
+             "Trusted: the reachability model. The chain the query defines is taken to be the transitive one the in-memory worlds implement (the compact world's direct-only answer is C02's subject).",
+             hang_violation=True),
     "C31": C("c31", dict(checks=4000, shards=2, timeout=300), dict(checks=40000, shards=16, timeout=3000),
              "property-based testing (rapid): round trips of generated feature IDs through every encoding, and order laws on generated triples with a differential against the compact index order",
              "Trusted: encoders/decoders of encoding/json, gopkg.in/yaml.v2 and protobuf. IDs in the postcode and ONS alias namespaces are restricted to values the packers produce (other values have no alias form). Namespaces exclude control characters."),
